@@ -46,7 +46,8 @@ ASSUME ParamsOK ==
 LogC == CHOOSE k \in 0..6 : 2^k = C
 
 Max(S) == CHOOSE x \in S : \A y \in S : y <= x
-IsPow2(n) == n > 0 /\ \E k \in 0..30 : 2^k = n
+Pow2Set == {2^k : k \in 0..30}
+IsPow2(n) == n \in Pow2Set
 
 ----------------------------------------------------------------------------
 (* Exact arithmetic on <<hi, lo>> hashes *)
@@ -164,19 +165,22 @@ SysvFinds(T, i) ==
     /\ SysvLookup(T, s.name, s.sh, s.ver) = Found(i)
     /\ r.st = "found" /\ T.syms[r.idx + 1].name = s.name /\ T.syms[r.idx + 1].def
 
-(* a probe p = [name, gh, sh]: a name that is defined must be found under that name, a name
-   that is not defined must give "none" (neither a symbol nor a fault) *)
-ProbeOK(T, p, r) ==
-    IF p.name \in DefinedNames(T)
+(* a probe p = [name, gh, sh]: a name that is defined (dn: the set of defined names) must be
+   found under that name, a name that is not defined must give "none" (neither a symbol nor a
+   fault) *)
+ProbeOK(T, dn, p, r) ==
+    IF p.name \in dn
     THEN r.st = "found" /\ T.syms[r.idx + 1].name = p.name /\ T.syms[r.idx + 1].def
     ELSE r = None
-GnuProbeOK(T, p)  == ProbeOK(T, p, GnuLookup(T, p.name, p.gh, -1))
-SysvProbeOK(T, p) == ProbeOK(T, p, SysvLookup(T, p.name, p.sh, -1))
+GnuProbeOK(T, dn, p)  == ProbeOK(T, dn, p, GnuLookup(T, p.name, p.gh, -1))
+SysvProbeOK(T, dn, p) == ProbeOK(T, dn, p, SysvLookup(T, p.name, p.sh, -1))
 
-GnuBad(T, probes)  == [defs   |-> {i \in DefinedIdx(T) : ~GnuFinds(T, i)},
-                       probes |-> {k \in 1..Len(probes) : ~GnuProbeOK(T, probes[k])}]
-SysvBad(T, probes) == [defs   |-> {i \in DefinedIdx(T) : ~SysvFinds(T, i)},
-                       probes |-> {k \in 1..Len(probes) : ~SysvProbeOK(T, probes[k])}]
+GnuBad(T, probes)  == LET dn == DefinedNames(T) IN
+                      [defs   |-> {i \in DefinedIdx(T) : ~GnuFinds(T, i)},
+                       probes |-> {k \in 1..Len(probes) : ~GnuProbeOK(T, dn, probes[k])}]
+SysvBad(T, probes) == LET dn == DefinedNames(T) IN
+                      [defs   |-> {i \in DefinedIdx(T) : ~SysvFinds(T, i)},
+                       probes |-> {k \in 1..Len(probes) : ~SysvProbeOK(T, dn, probes[k])}]
 
 NoBad(b) == b.defs = {} /\ b.probes = {}
 TableOK(T, probes, wantGnu, wantSysv) ==
@@ -199,14 +203,15 @@ SysvBucketCount(n) == NextPow2(IF n \div 2 < 1 THEN 1 ELSE n \div 2)
 WildBloomShift == LogC                                      \* bloom_shift: 6 (ELF64)
 WildBloomCount == 1                                         \* bloom_count: 1
 
-(* sort by (bucket, name); the tie between two versions of one name is left open by the
-   unstable sort: `flip` picks one of the two orders *)
+(* sort by (bucket, name).  The key is not total when several versions of one name are exported:
+   the unstable sort may leave them in either order (observed on the real binary: both orders
+   occur within one output).  flip[name] picks the order for that name. *)
 GnuKeyLess(a, b, nb, flip) ==
     LET ba == ModN(a.gh, nb)
         bb == ModN(b.gh, nb) IN
     \/ ba < bb
     \/ ba = bb /\ a.name < b.name
-    \/ ba = bb /\ a.name = b.name /\ (IF flip THEN a.ver > b.ver ELSE a.ver < b.ver)
+    \/ ba = bb /\ a.name = b.name /\ (IF flip[a.name] THEN a.ver > b.ver ELSE a.ver < b.ver)
 
 SortBy(D, Less(_, _)) ==
     LET n == Len(D)
